@@ -789,5 +789,5 @@ MANIFEST = {
              "and compared with reference bindings; twins are cross-checked; standard constant tables are folded and compared. Values computed by the third-party "
              "primitives are trusted, not re-derived.",
     "note": "Trusted: cryptography/crcmod APIs and constants. One known finding (Counter 32-bit overflow) is listed in known_findings.json. Not decided: byte-level equality with reference implementations.",
-    "technique": "static analysis: descriptor extraction with helper inlining, twin cross-check, order-type guard decision, symbolic byte layout, constant folding, finite-model evaluation of the KDF and of Counter as an object model, guarded paths, MAC/hash wrappers as traces on symbolic arguments (wrapper classes stepped into), KDF entry points as an interprocedural model, optional-parameter defaults of every encrypt/decrypt pair",
+    "technique": "static analysis: descriptor extraction with helper inlining, twin cross-check, order-type guard decision, symbolic byte layout, constant folding, finite-model evaluation of the KDF and of Counter as an object model, guarded paths, MAC/hash wrappers as traces on symbolic arguments (wrapper classes stepped into), KDF entry points as an interprocedural model, optional-parameter defaults of every encrypt/decrypt pair, key-store constants, KDF record and Hash.update_int decided by whole-function evaluation",
 }
